@@ -30,8 +30,7 @@ def pRawCDS : P RawCDS := do
   pure ⟨st, isFrame, ex, if sq = "_" then none else some sq.toList⟩
 
 /-- `CDSFrame(v)` / `CDSPhase(v)` for every value, then the modelled constructor.
-    Negative coordinates are refused up front (the real CompoundInterval constructor does not reject them,
-    F-C19g; the harness never sends them on this op family). -/
+    Negative coordinates are refused up front, like both location constructors do (InvalidPositionException). -/
 def build (r : RawCDS) : R CDS := do
   if r.exons.any (fun e => e.1 < 0 ∨ e.2.1 < 0) then throw .InvalidPosition
   let blocks : List Blk := r.exons.map (fun e => (e.1.toNat, e.2.1.toNat))
@@ -65,14 +64,6 @@ def showS (s : List Char) : String := "s:" ++ String.ofList s
 def showCodons (cs : List (List Char)) : String :=
   toString cs.length ++ String.join (cs.map fun c => " " ++ String.ofList c)
 
-/-- answers of the first-codon predicates: `none` = Python's internal StopIteration, which the model has no
-    error constructor for; the driver then declares the case "not modelled" (`bad-op …`), so that only the
-    spec verdict on the implementation's answer counts (finding F-C19e) -/
-def showOptBool : R (Option Bool) → String
-  | .ok (some b) => "ok " ++ showBool b
-  | .ok none => "bad-op StopIteration-not-modelled"
-  | .error e => "err " ++ showErr e
-
 def frameVal (f : CDSFrame) : String := toString f.value
 
 def ops : List (String × Op) := [
@@ -95,10 +86,10 @@ def ops : List (String × Op) := [
         translate x t tab s))),
   ("hasstop", do let c ← pCDS; pure (showR showBool (do let x ← c; hasValidStop x))),
   ("inframestop", do let c ← pCDS; pure (showR showBool (do let x ← c; hasInFrameStop x))),
-  ("canonstart", do let c ← pCDS; pure (showOptBool (do let x ← c; hasCanonicalStartCodon x))),
+  ("canonstart", do let c ← pCDS; pure (showR showBool (do let x ← c; hasCanonicalStartCodon x))),
   ("startin", do
       let c ← pCDS; let tab ← pInt
-      pure (showOptBool (do
+      pure (showR showBool (do
         let x ← c
         if tab ≠ 0 ∧ tab ≠ 1 ∧ tab ≠ 11 then throw .ValueError
         hasStartCodonIn x tab))),
